@@ -104,3 +104,114 @@ def canon(e, defs=None, depth=0, inline=True):
         return " ".join(ast.unparse(e).split())
     except Exception:
         return ast.dump(e)
+
+
+# ---------------------------------------------------------------------------
+# forward substitution of straight-line locals under known flags
+
+
+class _Subst(ast.NodeTransformer):
+    def __init__(self, env, flags):
+        self.env, self.flags = env, flags
+
+    def visit_Name(self, n):
+        if isinstance(n.ctx, ast.Load) and n.id in self.env \
+                and self.env[n.id] is not None:
+            import copy
+            return copy.deepcopy(self.env[n.id])
+        return n
+
+    def visit_IfExp(self, n):
+        from .flow import eval_test
+        self.generic_visit(n)
+        t = eval_test(n.test, self.flags)
+        if t is True:
+            return n.body
+        if t is False:
+            return n.orelse
+        return n
+
+    def visit_Lambda(self, n):
+        return n
+
+
+def _assigned_names(stmts):
+    out = set()
+    for st in stmts:
+        for n in ast.walk(st):
+            if isinstance(n, ast.Name) and isinstance(n.ctx, ast.Store):
+                out.add(n.id)
+    return out
+
+
+def forward_subst(fnode, flags=None):
+    """Walk the function body in order, specialised to `flags` (parameter
+    name -> constant), substituting plain local assignments forward.
+    -> (returns, env): `returns` is the list of return-value expressions
+    (locals replaced by their definitions, conditional expressions on the
+    flags folded) on the paths consistent with the flags; names assigned
+    under undecidable conditions / loops / try are left symbolic."""
+    import copy
+    from .flow import eval_test
+    flags = dict(flags or {})
+    returns = []
+
+    def sub(e, env):
+        return _Subst(env, flags).visit(copy.deepcopy(e))
+
+    def block(body, env):
+        """-> True if the block certainly returned/raised."""
+        for st in body:
+            if isinstance(st, ast.Return):
+                returns.append(sub(st.value, env) if st.value is not None
+                               else None)
+                return True
+            if isinstance(st, ast.Raise):
+                return True
+            if isinstance(st, ast.Assign) and len(st.targets) == 1 \
+                    and isinstance(st.targets[0], ast.Name):
+                env[st.targets[0].id] = sub(st.value, env)
+                continue
+            if isinstance(st, ast.If):
+                t = eval_test(st.test, flags)
+                if t is True:
+                    if block(st.body, env):
+                        return True
+                    continue
+                if t is False:
+                    if block(st.orelse, env):
+                        return True
+                    continue
+                e1, e2 = dict(env), dict(env)
+                d1 = block(st.body, e1)
+                d2 = block(st.orelse, e2)
+                if d1 and d2:
+                    return True
+                if d1:
+                    env.clear()
+                    env.update(e2)
+                elif d2:
+                    env.clear()
+                    env.update(e1)
+                else:
+                    for k in set(e1) | set(e2):
+                        a, b = e1.get(k), e2.get(k)
+                        if a is not None and b is not None \
+                                and ast.dump(a) == ast.dump(b):
+                            env[k] = a
+                        else:
+                            env[k] = None
+                continue
+            # anything else: names stored inside become unknown
+            for nm in _assigned_names([st]):
+                env[nm] = None
+            if isinstance(st, (ast.For, ast.While, ast.Try, ast.With)):
+                # returns inside are recorded with what is known
+                for n in ast.walk(st):
+                    if isinstance(n, ast.Return) and n.value is not None:
+                        returns.append(sub(n.value, env))
+        return False
+
+    env = {}
+    block(fnode.body, env)
+    return returns, env
